@@ -347,8 +347,8 @@ class Checker:
                 blocks, mapping = r
                 self.claim(blocks, "ino%d" % ino, ino)
                 i._mapping = mapping
-        # xattr block
-        if i.file_acl:
+        # xattr block (nobody interprets i_file_acl of the journal/resize/quota/orphan inodes)
+        if i.file_acl and not (ino in self.special and ino != I.ROOT_INO):
             b = i.file_acl
             if b < sb.s_first_data_block or b >= img.blocks_count:
                 self.p("F1", "block-out-of-range", "inode %d xattr block %d" % (ino, b))
@@ -412,7 +412,9 @@ class Checker:
         is_dx = bool(i.flags & I.FL_INDEX) and sb.has_compat("dir_index")
         dx_interior = set()
         dx_leaf_range = {}
-        if is_dx and 0 in blocks:
+        if is_dx and 0 not in blocks:
+            is_dx = False
+        if is_dx:
             ok = self.parse_htree(i, blocks, nblocks, dx_interior, dx_leaf_range, seed)
             if not ok:
                 is_dx = False
